@@ -5,6 +5,8 @@
 * `fence.run`   vs the real preprocessor of `markdown.Markdown(extensions=['fenced_code'])` run on the lines of the text, together
   with the `rawHtmlBlocks` it leaves in the stash.  Blocks with a non-empty `{attrs}` part are outside the model (`ood`); the
   harness checks that the model says `ood` exactly when the implementation reaches such a block first.
+* `fence.runa`  vs the same real preprocessor, `{attrs}` branch included (`get_attrs_and_remainder`, `handle_attrs`, the `continue`
+  when the braces do not match): never `ood`.
 
 Texts are pre-normalised (no tabs, no CR) over the alphabet: fence characters, newline, space, letters, `{ } . = " ' & < >` and a few
 tokens (`hl_lines=`, `{.py}`, …) that make the interesting branches of the pattern frequent.
@@ -21,7 +23,8 @@ RE = FencedBlockPreprocessor.FENCED_BLOCK_RE
 CHARS = ['`', '~', '\n', ' ', 'a', 'b', 'p', 'y', 'h', 'l', '_', '{', '}', '.', '=', '"', "'", '&', '<', '>', '#', '+', '-', 'é', '1']
 TOKENS = ['```', '~~~', '````', '~~~~', '```\n', '~~~\n', '\n```', '\n~~~', '\n```\n', '\n~~~\n', '\n', '\n', ' ', '  ',
           'hl_lines=', 'hl_lines="1 2"', "hl_lines='3'", 'hl_lines="', '.py', 'py', 'c++', '.', '{', '}', '{}', '{.py}', '{ }',
-          '{.py #i}', '&amp;', '&lt;', '<b>', '&', '<', '>', '"', 'x', '*e*', '\x02wzxhzdk:0\x03']
+          '{.py #i}', '{#a .x .y #b}', '{.py k=v}', '{k="v w" .c}', '{.}', '{#}', '{. .b}', '{.a"b}', '{.a&b <c>}', '{.a}x}', '{.a} }', '{id=q}',
+          '{=}', '{.a =}', '{py}', '&amp;', '&lt;', '<b>', '&', '<', '>', '"', 'x', '*e*', '\x02wzxhzdk:0\x03']
 ESC = ['&', '<', '>', '"', '&amp;', '&lt;', '&gt;', '&#1;', '&a', ';', 'a', ' ', '\n', '&&', '<>', 'é', '&quot;']
 
 
@@ -38,7 +41,8 @@ def gen_block(rng):
     # a (nearly) well-formed block with noise around and inside
     f = rng.choice(['```', '~~~', '````', '~~~~~'])
     info = rng.choice(['', '', 'py', ' py ', '.py', '..py', 'c++ ', ' hl_lines="1"', 'py hl_lines="1" ', 'pyhl_lines=\'2\'',
-                       'hl_lines="1\n2"', ' {.py}', '{}', '{ }', '{.a .b}', '{x', 'x}', ' {.py} x', 'a b', '.', ' . '])
+                       'hl_lines="1\n2"', ' {.py}', '{}', '{ }', '{.a .b}', '{x', 'x}', ' {.py} x', '{#i .a .b k=v}', '{.a}}', '{.a}b}', '{ #i }', '{.a"<&>}', "{k='}' .a}",
+                       '{.py hl_lines="1 2"}', '{.py linenums=true}', '{id=z .c}', '{a=b=c}', '{.x #}', '{..y}', 'a b', '.', ' . '])
     body = ''.join(rng.choice(TOKENS + CHARS) for _ in range(rng.randint(0, 8)))
     close = rng.choice([f, f, f + ' ', f + '  ', f[:-1], f + f[0], ' ' + f, f + 'x'])
     pre = ''.join(rng.choice(TOKENS) for _ in range(rng.randint(0, 3)))
@@ -62,8 +66,8 @@ def model_find(ans):
     return (int(f[0]), int(f[1]), dec_str(f[2]), dec_opt(f[3]), dec_opt(f[4]), dec_opt(f[5]), dec_str(f[6]))
 
 
-def real_run(text):
-    """the real preprocessor; 'ood' when the first block it meets that has a non-empty {attrs} part comes up"""
+def real_run(text, attrs_ood=True):
+    """the real preprocessor; with attrs_ood: 'ood' when a block with a non-empty {attrs} part comes up"""
     md = markdown.Markdown(extensions=['fenced_code'])
     pp = md.preprocessors['fenced_code_block']
     # does the loop ever see a match with non-empty attrs?  replay the loop's searches to know (the model stops there)
@@ -77,7 +81,7 @@ def real_run(text):
             return m
     pp.FENCED_BLOCK_RE = Spy()
     out = pp.run(text.split('\n'))
-    if seen_attrs: return 'ood'
+    if seen_attrs and attrs_ood: return 'ood'
     return ('\n'.join(out), list(md.htmlStash.rawHtmlBlocks))
 
 
@@ -90,7 +94,8 @@ def model_run(ans):
 def run(driver, rng, n):
     dis = []; cases = 0; seen = set(); samples = []
     dist = {'escape': 0, 'find.match': 0, 'find.none': 0, 'find.attrs': 0, 'find.lang': 0, 'find.hl': 0, 'find.hl_multiline': 0,
-            'run.ok': 0, 'run.ood': 0, 'run.blocks0': 0, 'run.blocks1': 0, 'run.blocks2+': 0}
+            'run.ok': 0, 'run.ood': 0, 'run.blocks0': 0, 'run.blocks1': 0, 'run.blocks2+': 0,
+            'runa.attrs': 0, 'runa.id': 0, 'runa.class': 0, 'runa.lang': 0}
     pp = FencedBlockPreprocessor(markdown.Markdown(), {})
     n_esc = max(1, n // 5)
     # ---- escaping
@@ -113,11 +118,11 @@ def run(driver, rng, n):
     for a in range(0, len(texts), CH):
         chunk = texts[a:a + CH]
         reqs = []
-        for t in chunk: reqs += [('fence.find', enc_str(t)), ('fence.run', enc_str(t))]
+        for t in chunk: reqs += [('fence.find', enc_str(t)), ('fence.run', enc_str(t)), ('fence.runa', enc_str(t)), ('fence.attrsend', enc_str(t))]
         ans = driver.ask_many(reqs)
         for i, t in enumerate(chunk):
             cases += 1; seen.add(('f', t))
-            mf, rf = model_find(ans[2 * i]), real_find(t)
+            mf, rf = model_find(ans[4 * i]), real_find(t)
             if rf is None: dist['find.none'] += 1
             else:
                 dist['find.match'] += 1
@@ -127,13 +132,25 @@ def run(driver, rng, n):
                     dist['find.hl'] += 1
                     if '\n' in rf[5]: dist['find.hl_multiline'] += 1
             if mf != rf: dis.append({'op': 'fence.find', 'input': t, 'model': mf, 'impl': rf})
-            mr, rr = model_run(ans[2 * i + 1]), real_run(t)
+            mr, rr = model_run(ans[4 * i + 1]), real_run(t)
             if rr == 'ood': dist['run.ood'] += 1
             else:
                 dist['run.ok'] += 1
                 k = len(rr[1]); dist['run.blocks0' if k == 0 else 'run.blocks1' if k == 1 else 'run.blocks2+'] += 1
                 if k >= 1 and len(samples) < 3: samples.append({'text': t, 'newtext': rr[0], 'stash': rr[1]})
             if mr != rr: dis.append({'op': 'fence.run', 'input': t, 'model': mr, 'impl': rr})
+            ma = model_run(ans[4 * i + 2])
+            ra = real_run(t, False) if rr == 'ood' else rr
+            if rr == 'ood':
+                dist['runa.attrs'] += 1
+                h = ''.join(ra[1])
+                if '<pre id=' in h: dist['runa.id'] += 1
+                if '<pre class=' in h or '" class=' in h.split('><code')[0]: dist['runa.class'] += 1
+                if 'language-' in h: dist['runa.lang'] += 1
+            if ma != ra: dis.append({'op': 'fence.runa', 'input': t, 'model': ma, 'impl': ra})
+            m0 = RE.search(t)
+            re_end = str(m0.end('attrs')) if (m0 and m0.group('attrs')) else 'none'
+            if ans[4 * i + 3] != re_end: dis.append({'op': 'fence.attrsend', 'input': t, 'model': ans[4 * i + 3], 'impl': re_end})
     return {'cases': cases, 'distinct': len(seen), 'disagreements': dis, 'samples': samples, 'dist': dist}
 
 
